@@ -6,6 +6,7 @@ Require Import Urcu.Defer.Defer.
 Require Import Urcu.Defer.DeferRing.
 Require Import Urcu.Defer.DeferRun.
 Require Import Urcu.Gen.Generated.
+Require Import Urcu.Defer.DeferWrap.
 Import ListNotations.
 
 (* decode (encode l) = l for every list of (function, argument) bit patterns and every initial last-function value *)
@@ -68,4 +69,17 @@ Theorem C13_default_queue_size_ok :
     (4 <= defer_queue_size)%N /\ (exists k : N, defer_queue_size = (2 ^ k)%N).
 Proof. exact (@Urcu.Defer.DeferRun.default_queue_size_ok). Qed.
 Print Assumptions C13_default_queue_size_ok.
+
+(* the ring as the code has it - head and tail wrapping at W = 2^64 (any multiple of SIZE), occupancy = head - tail in machine arithmetic, slot = head & (SIZE-1) - takes exactly the steps of the unbounded ring: same flush decisions, same slots, same calls, across any number of wrap-arounds *)
+Theorem C13_counters_wrap :
+    forall SIZE W : N,
+    (4 <= SIZE)%N ->
+    (exists k : N, W = (k * SIZE)%N /\ (2 <= k)%N) ->
+    forall (w : wring) (r : ring) (f p : N),
+    Inv SIZE r ->
+    rep W w r ->
+    rep W (fst (wenq SIZE W w f p)) (fst (enq SIZE r f p)) /\
+    snd (wenq SIZE W w f p) = snd (enq SIZE r f p).
+Proof. exact (@Urcu.Defer.DeferWrap.rep_enq). Qed.
+Print Assumptions C13_counters_wrap.
 
